@@ -7,6 +7,7 @@ LEVEL = "exploration"
 SHARDS = {"quick": 8, "thorough": 16}
 TIMEOUT = {"quick": 900, "thorough": 7200}
 REQUIRED = {"parse_format": 3000, "by_path": 800, "malformed": 800, "deep": 200, "lenient": 40}
+ANCHORS = ['wallet_utils:Bip32Path.parse', 'wallet_utils:Bip32Path.convert_hardened', 'wallet_utils:Bip32Path.__repr__', 'base_wallet:BaseWallet.by_path', 'bip32:PubKeyNode.__repr__']
 RULE = ("well-formed: index lists of length 0..5 over [0,2^32) with edge values, both markers (' and h, mixed), both root "
         "marks; malformed: single-fault grammar (wrong root, junk tokens, empty inner component, negative and oversized numbers "
         "with and without marker) applied at every level 1..5; deep: well-formed paths of 6..12 levels; lenient: spellings "
